@@ -101,6 +101,29 @@ def replay(prop, path):
     return 0 if r.returncode == 0 else 2
 
 
+def env_probe(tag):
+    """One line about the machine the check runs on (host steal time, pressure, cost of touching fresh memory): a slow or
+    oversubscribed host explains a leg that stops at its deadline with exhaustive=false."""
+    try:
+        import mmap
+        la = open("/proc/loadavg").read().split()[:3]
+        st = open("/proc/stat").readline().split()
+        tot = sum(int(x) for x in st[1:9]); steal = int(st[8])
+        psi = ""
+        for k in ("cpu", "memory", "io"):
+            try:
+                psi += " psi_%s=%s" % (k, open("/proc/pressure/" + k).readline().split()[1])
+            except Exception:
+                pass
+        t0 = time.time(); m = mmap.mmap(-1, 32 << 20)
+        for o in range(0, 32 << 20, 4096):
+            m[o] = 1
+        dt = time.time() - t0; m.close()
+        print("ENV %s loadavg=%s steal_ticks=%d/%d%s touch32MB=%.3fs" % (tag, "/".join(la), steal, tot, psi, dt))
+    except Exception as e:
+        print("ENV %s probe failed: %s" % (tag, e))
+
+
 def main():
     ap = argparse.ArgumentParser()
     ap.add_argument("prop")
@@ -127,6 +150,7 @@ def main():
         print("ENGINE-ERROR build failed\n%s" % e)
         sys.exit(2)
     t_build = time.time() - t_start
+    env_probe("start")
     known = load_known(prop)
     budget = a.budget or BUDGET[a.tier]
     results = []
@@ -192,6 +216,7 @@ def main():
     os.makedirs(os.path.join(VERIF, "evidence"), exist_ok=True)
     with open(os.path.join(VERIF, "evidence", prop + ".json"), "w") as f:
         json.dump(ev, f, indent=1)
+    env_probe("end")
     for k in known:
         if known_hits.get(k["match"], 0) > 0:
             print("KNOWN-FINDING: property=%s %s (seen in %d executions)" % (prop, k["desc"], known_hits[k["match"]]))
